@@ -29,6 +29,9 @@ def check(run):
         run.guard("C15.5.every-rule", cfg, lambda: _rva(run, "C15.5.every-rule", F, cfg, ['blocker::Blocker::get_csp_directives'],
                   'The policy is the union over ALL matching csp rules minus ALL excepted directives', minimum=1))
         run.guard("C15.1.type-gate", cfg, lambda: rule_type_gate(run, F, cfg))
+        from . import C06 as _C06r
+        b6r = run.borrow("C06", only=r"new==add_filter|exists", why="a csp rule or csp exception added with add_filter must land in the csp list exactly as it does in a batch (tagged ones included)")
+        run.guard("C15.via.C06.4.batch-incremental", cfg, lambda: _C06r.rule_routing(b6r, F, cfg))
         run.guard("C15.3.set-algebra", cfg, lambda: rule_sets(run, F, cfg))
         run.guard("C15.3.set-algebra", cfg + "/merge", lambda: rule_merge(run, F, cfg))
         run.guard("C15.4.parse-guard", cfg, lambda: rule_parse(run, F, cfg))
